@@ -288,7 +288,7 @@ def cmd_check(pid, tier):
                                  "enumerate": bool(s.get("enumerate"))})
             if res["timed_out"]:
                 cov["timed_out_steps"].append(s["target"])
-            elif s.get("enumerate") and not res["failure"] and res["evaluations"] == cases:
+            elif s.get("enumerate") and not res["failure"] and res["evaluations"] == cases and res["inconclusive"] == 0:
                 cov["exhaustive_steps"].append(s["target"])
             f = res["failure"]
             if f:
